@@ -56,7 +56,9 @@ class ValidateVariableNamesVisitor(Visitor.DefaultVisitor):
     def v_Function(self, func, ctx=None):
         ctx = self.Context(ctx)
         for arg in func.GetArguments():
-            ctx.Add(arg.GetName(), arg.GetLocation())
+            # unnamed arguments declare no name, so several of them never clash
+            if arg.HasName():
+                ctx.Add(arg.GetName(), arg.GetLocation())
 
         with Errors.CompileExceptionToErrorHandler(
             self.errorHandler, self.__onError
